@@ -1100,6 +1100,13 @@ def _class_case(ctx, pl, params=None):
     kw = dict(ordmax=rng.randint(3, 7), nxseg=rng.choice([64, 100, 128]), method_SD=rng.choice(["per", "cor"]),
               pov=rng.choice([0.0, 0.5, 0.75]))
     sgn = -1 if kw["method_SD"] == "per" else 1
+    neutral = rng.random() < 0.5
+    if neutral:
+        # hard criteria switched off the only way the API offers (limits no pole can violate): then the stored tables report
+        # EVERY pole of the fitted model with positive damping
+        kw["hc"] = dict(conj=False, xi_max=rng.choice([1.5, 2.0, 10.0, 100.0]), mpc_lim=0.0, mpd_lim=rng.choice([2.0, 10.0]))
+        inp["hc"] = dict(kw["hc"])
+        ctx.count("class_neutral_criteria")
     setup = SingleSetup(data, fs=fs)
     a = pLSCF(name="a", **kw)
     b = pLSCF(name="b", **kw)
@@ -1173,6 +1180,15 @@ def _class_case(ctx, pl, params=None):
     if not ok:
         ctx.violation("class-stored-poles", "pLSCF.run: a stored pole is not a pole of the stored model (Ad, Bn)", inp)
         return
+    if neutral:
+        must = ~np.isnan(Fn_f) & (np.nan_to_num(Xi_f, nan=-1.0) > 1e-9) & (np.nan_to_num(Xi_f, nan=9.0) < 1.0 - 1e-9)
+        lost = must & np.isnan(Fr)
+        ctx.oracle_cases += 1
+        if lost.any():
+            r0, c0 = (int(x[0]) for x in np.nonzero(lost))
+            ctx.violation("class-neutral-criteria-lose-poles", f"pLSCF.run with hard criteria no pole can violate (xi_max={kw['hc']['xi_max']}) does not report {int(lost.sum())} poles of "
+                          f"the fitted model, e.g. f={Fn_f[r0, c0]:.6g}, xi={Xi_f[r0, c0]:.4g} at column {c0}", inp)
+            return
     # second object in the same session, then the first one again
     setup.run_by_name("b")
     setup.run_by_name("a")
